@@ -17,7 +17,7 @@ func init() {
 			"(linear terms over wire atoms, facts from branch edges, inferred callee preconditions, inductive invariant of the event loop with the handlers' consumed-bytes postcondition); the handler dispatch is guarded (valid header, index in table, non-nil entry); handshake handlers run only after a message-type test; " +
 			"optional Session pointers (manager, listener, monitor, listenCallback) are nil-checked before every dereference; handlers are restartable (no side effect before an 'incomplete, stop' return); a handler error ends only the session (exitErr -> Close; no panic/os.Exit in scope). " +
 			"NOT decided: panics with no wire-dependent operand outside this scope (OOM, nil map writes: see C14), semantic equality of chunked vs unchunked delivery beyond restartability. The interval domain is deliberately weak: an unprovable but safe site is reported as UNPROVEN (fails closed).",
-		RuleText: "R13.1 guards of the table dispatch + message-type matrix + handshake handler guards; R13.2 one obligation per bound of every make/slice/index/BigEndian call in scope functions (roots: table-shaped handlers, handleEvents, protocolInitializer implementations, getProtocolInitializer; plus reachable callees taking header/[]byte), proved by the linear-fact engine; R13.3 postcondition 0<=n<=headerSize+len(buf) per handler return; R13.4 per dereference of an optional Session pointer; R13.5 per stop-return; R13.6 error containment.",
+		RuleText: "R13.1 guards of the table dispatch + message-type matrix + handshake handler guards; R13.2 one obligation per bound of every make/slice/index/BigEndian call in scope functions (roots: table-shaped handlers, handleEvents, protocolInitializer implementations, getProtocolInitializer; plus reachable callees taking header/[]byte), proved by the linear-fact engine; R13.3 postcondition 0<=n<=headerSize+len(buf) per handler return; R13.4 per dereference of an optional Session pointer; R13.5 per stop-return; R13.6 error containment; R13.7 receive-window discipline of the event connection (shared with C18 R18.4): the outcome must not depend on how bytes were split into reads.",
 		Run:      runC13,
 	})
 }
@@ -217,6 +217,10 @@ func runC13(p *P, r *R) {
 	c13Optional(p, r)
 	c13Restartable(p, r, handlers)
 	c13Containment(p, r, scope)
+	// R13.7 chunk independence on the receiving buffer: events already consumed are never presented again and
+	// pending bytes are never dropped, however the reads were cut (window discipline of the event connection,
+	// shared with C18 R18.4)
+	c18Window(p, r, "R13.7")
 }
 
 func describeOp(p *P, in ssa.Instruction) string {
